@@ -74,9 +74,13 @@ func (builder *filegroupBuilder) Build(state *core.BuildState, target *core.Buil
 	if changed, present := builder.built[to]; present {
 		return changed, nil // File's already been built.
 	}
+	// Copy source files when they're binary to avoid nuking their permissions.
+	isSourceFile := !strings.HasPrefix(from, "plz-out/")
+	link := !target.IsBinary || !isSourceFile
 	if same, err := isSameFileContent(state, target.HashLastModified(), from, to); err != nil {
 		return false, err
-	} else if same {
+	} else if same && (!link || sameExecutableBit(from, to)) {
+		// When we link, the output has the permissions of the input, which the hash doesn't cover.
 		// File exists already and is the same file. Nothing to do.
 		builder.built[to] = false
 		state.PathHasher.CopyHash(from, to)
@@ -88,9 +92,7 @@ func (builder *filegroupBuilder) Build(state *core.BuildState, target *core.Buil
 	} else if err := fs.EnsureDir(to); err != nil {
 		return true, err
 	} else {
-		// Copy source files when they're binary to avoid nuking their permissions.
-		isSourceFile := !strings.HasPrefix(from, "plz-out/")
-		if err := fs.RecursiveCopyOrLinkFile(from, to, target.OutMode(), !target.IsBinary || !isSourceFile, true); err != nil {
+		if err := fs.RecursiveCopyOrLinkFile(from, to, target.OutMode(), link, true); err != nil {
 			return true, err
 		}
 	}
